@@ -698,3 +698,11 @@ _retier("C02", to_thorough=("c14_msg_xor_mapped_v4", "c14_msg_even_port", "c14_m
 for _h in PROPS["C19"]:
     if _h.name.endswith("c19_unknown_attributes_clone_mutate"):
         _h.timeout = 1200
+
+# ---- thorough-tier trims after the last full passes
+# c06_step_rto500_rc10_i10 (final slot of the 10-transmission schedule) does not finish in 40 min; the final slot is decided for Rc = 1, 2, 3 and 7
+PROPS["C06"] = [h for h in PROPS["C06"] if not h.name.endswith("c06_step_rto500_rc10_i10")]
+# three-attribute C13 patterns need ~30 GB each (one at a time): three representatives stay (non-adjacent duplicate, adjacent duplicate, three tail kinds)
+_C13_DROP = ("p023", "p204", "p305", "p450", "p112", "p034", "p501", "p345", "p432")
+PROPS["C13"] = [h for h in PROPS["C13"] if not h.name.endswith(_C13_DROP)]
+PROPS["C07"] = [h for h in PROPS["C07"] if not h.name.endswith(_C13_DROP)]
